@@ -1,6 +1,7 @@
 package main
 
 import (
+	"encoding/json"
 	"context"
 	"fmt"
 	"math/rand"
@@ -51,8 +52,11 @@ func (closerSuite) Gen(r *rand.Rand, i int) Case {
 			}
 		case x < 70:
 			c.Ops = append(c.Ops, fmt.Sprintf("ev %s %d", pick(r, "success", "success", "failure", "timeout", "badrequest", "interrupt", "reject", "shortcircuit"), t))
-		case x < 82:
+		case x < 78:
 			c.Ops = append(c.Ops, fmt.Sprintf("shouldclose %d", t))
+		case x < 82:
+			c.Ops = append(c.Ops, "view") // the JSON / expvar view: state-level comparison, and it must change nothing
+			c.Tags = append(c.Tags, "view")
 		case x < 95:
 			k := 0
 			if armed > 0 {
@@ -124,6 +128,23 @@ func (closerSuite) Run(h map[string]string, ops []string) []string {
 					callbacks[k]()
 				}
 				return "ok"
+			case "view":
+				b, err := json.Marshal(cl)
+				if err != nil {
+					return "err"
+				}
+				var v struct {
+					Config struct {
+						SleepWindow                  int64
+						HalfOpenAttempts             int64
+						RequiredConcurrentSuccessful int64
+					}
+					ConcurrentSuccessfulAttempts int64
+				}
+				if err := json.Unmarshal(b, &v); err != nil {
+					return "err"
+				}
+				return fmt.Sprintf("succ=%d sleep=%d half=%d req=%d", v.ConcurrentSuccessfulAttempts, v.Config.SleepWindow, v.Config.HalfOpenAttempts, v.Config.RequiredConcurrentSuccessful)
 			case "cfg":
 				m := kvs(f[1:])
 				cfg.SleepWindow = time.Duration(getI(m, "sleep", 0))
